@@ -381,7 +381,7 @@ class options_default:
                     result.spine_ids is None)
 
 
-@contract(GEN + 'parse_options_to_ExportOptions', props=PROPS + ['C14'])
+@contract(GEN + 'parse_options_to_ExportOptions', props=PROPS + ['C14', 'C07', 'C08', 'C19'])
 class parse_options:
     """Keyword options -> ExportOptions: None leaves the default, any other value is stored as given; the selected categories are
     Clo(include) \\ Clo(exclude).  Nothing passed in is modified (the options object is fresh)."""
